@@ -281,6 +281,54 @@ def _c05_refill(src: Src) -> str:
             f"def recfmNRefill (bufLen used : Nat) : Int := {e}")
 
 
+# ---- C17 -----------------------------------------------------------------------------------
+
+
+@item("C17", "cleaner",
+      'def cleanerPattern : String := "" -- extraction unavailable\n'
+      "def cleanerFlags : List String := []\ndef cleanerReplace : List (String × String) := []")
+def _c17_cleaner(src: Src) -> str:
+    """name_cleaner: the pattern, its flags, and the chain of str.replace calls in the loop body."""
+    fn = src.func("workbook", "name_cleaner")
+    loop = next((s for s in fn.body if isinstance(s, ast.While)), None)
+    if loop is None:
+        raise Unavailable("name_cleaner: while loop not found")
+    match_call = next((n for n in ast.walk(loop.test) if isinstance(n, ast.Call) and ast.unparse(n.func) == "re.match"), None)
+    if match_call is None or not (isinstance(match_call.args[0], ast.Constant) and isinstance(match_call.args[0].value, str)):
+        raise Unavailable("name_cleaner: re.match(<literal>, ...) not found")
+    if ast.unparse(match_call.args[1]) != "name":
+        raise Unavailable("name_cleaner: re.match is not applied to `name`")
+    flags: list[str] = []
+    for a in match_call.args[2:] + [k.value for k in match_call.keywords if k.arg == "flags"]:
+        for part in ast.unparse(a).split("|"):
+            flags.append(part.strip().removeprefix("re."))
+    # the loop body: bad_char = groups[1][0]; name = name.replace(bad_char, "_").replace("__", "_")
+    assigns = [s for s in loop.body if isinstance(s, ast.Assign)]
+    if len(assigns) != 2 or len(loop.body) != 2:
+        raise Unavailable("name_cleaner: loop body is not two assignments")
+    if ast.unparse(assigns[0]) != "bad_char = groups[1][0]":
+        raise Unavailable(f"name_cleaner: unexpected {ast.unparse(assigns[0])}")
+    chain: list[tuple[str, str]] = []
+    node = assigns[1].value
+    while isinstance(node, ast.Call) and isinstance(node.func, ast.Attribute) and node.func.attr == "replace":
+        a, b = node.args
+        def lit(x: ast.AST) -> str:
+            if isinstance(x, ast.Constant) and isinstance(x.value, str):
+                return x.value
+            if isinstance(x, ast.Name) and x.id == "bad_char":
+                return "<bad_char>"
+            raise Unavailable(f"name_cleaner: replace argument {ast.unparse(x)}")
+        chain.insert(0, (lit(a), lit(b)))
+        node = node.func.value
+    if ast.unparse(node) != "name" or ast.unparse(assigns[1].targets[0]) != "name":
+        raise Unavailable("name_cleaner: replace chain does not start from / assign to `name`")
+    if not (isinstance(fn.body[-1], ast.Return) and ast.unparse(fn.body[-1].value) == "name"):
+        raise Unavailable("name_cleaner: does not end in `return name`")
+    return (f"def cleanerPattern : String := {lean_str(match_call.args[0].value)}\n"
+            f"def cleanerFlags : List String := [{', '.join(lean_str(f) for f in sorted(flags))}]\n"
+            f"def cleanerReplace : List (String × String) := [{', '.join('(' + lean_str(a) + ', ' + lean_str(b) + ')' for a, b in chain)}]")
+
+
 # ------------------------------------------------------------------------------------------
 # driver
 # ------------------------------------------------------------------------------------------
